@@ -41,7 +41,7 @@ fn set_nonblock(fd: i32) {
 /// `ids = Some((uid, gid))` (only meaningful when the driver is root): the probe is started by
 /// fork + setgid + setuid + execve instead of posix_spawn, so that AT_UID and AT_GID are two
 /// different non-zero numbers. With `egid` the effective ids differ from the real ones as well.
-pub fn run(path: &str, argv: &[Vec<u8>], envp: &[Vec<u8>], stdin: &[u8], limit: Duration, ids: Option<(u32, u32)>, egid: Option<u32>) -> Result<Outcome, LaunchError> {
+pub fn run(path: &str, argv: &[Vec<u8>], envp: &[Vec<u8>], stdin: &[u8], limit: Duration, ids: Option<(u32, u32)>, egid: Option<u32>, timens: Option<(u32, u32)>) -> Result<Outcome, LaunchError> {
     let cpath = CString::new(path).expect("probe path");
     let cargs: Vec<CString> = argv.iter().map(|a| CString::new(a.clone()).expect("NUL in argument")).collect();
     let cenv: Vec<CString> = envp.iter().map(|a| CString::new(a.clone()).expect("NUL in env entry")).collect();
@@ -55,7 +55,7 @@ pub fn run(path: &str, argv: &[Vec<u8>], envp: &[Vec<u8>], stdin: &[u8], limit: 
     let (err_r, err_w) = pipe2().inspect_err(|_| close_all(&[in_r, in_w, out_r, out_w]))?;
 
     let mut pid: libc::pid_t = 0;
-    let rc = if let Some((uid, gid)) = ids {
+    let rc = if ids.is_some() || timens.is_some() {
         // exec failures travel back over a close-on-exec pipe
         let (st_r, st_w) = pipe2().inspect_err(|_| close_all(&[in_r, in_w, out_r, out_w, err_r, err_w]))?;
         let child = unsafe { libc::fork() };
@@ -67,7 +67,54 @@ pub fn run(path: &str, argv: &[Vec<u8>], envp: &[Vec<u8>], stdin: &[u8], limit: 
                 if libc::dup2(in_r, 0) < 0 || libc::dup2(out_w, 1) < 0 || libc::dup2(err_w, 2) < 0 {
                     e = *libc::__errno_location();
                 }
-                if let Some(egid) = egid {
+                if let Some((mono, boot)) = timens {
+                    // a time namespace of its own, entered at the execve below: CLOCK_MONOTONIC and CLOCK_BOOTTIME
+                    // shifted by two different amounts (the vDSO data page of the new program shows the shifted clocks)
+                    if e == 0 && libc::unshare(0x80) != 0 {
+                        e = *libc::__errno_location();
+                    }
+                    if e == 0 {
+                        let fd = libc::open(b"/proc/self/timens_offsets\0".as_ptr().cast(), libc::O_WRONLY);
+                        if fd < 0 {
+                            e = *libc::__errno_location();
+                        } else {
+                            for (name, v) in [(&b"monotonic "[..], mono), (&b"boottime "[..], boot)] {
+                                let mut line = [0u8; 40];
+                                let mut n = 0;
+                                for &c in name {
+                                    line[n] = c;
+                                    n += 1;
+                                }
+                                let mut digits = [0u8; 12];
+                                let (mut k, mut x) = (0, v);
+                                loop {
+                                    digits[k] = b'0' + (x % 10) as u8;
+                                    k += 1;
+                                    x /= 10;
+                                    if x == 0 {
+                                        break;
+                                    }
+                                }
+                                while k > 0 {
+                                    k -= 1;
+                                    line[n] = digits[k];
+                                    n += 1;
+                                }
+                                for &c in b" 0\n" {
+                                    line[n] = c;
+                                    n += 1;
+                                }
+                                if e == 0 && libc::write(fd, line.as_ptr().cast(), n) != n as isize {
+                                    e = *libc::__errno_location();
+                                }
+                            }
+                            libc::close(fd);
+                        }
+                    }
+                }
+                let (uid, gid) = ids.unwrap_or((0, 0));
+                if ids.is_none() {
+                } else if let Some(egid) = egid {
                     // real ids differ from the effective ones (as under a set-id program): real uid/gid
                     // as generated, effective gid another number, effective uid stays 0 so that the
                     // probe can still read its own /proc/self/auxv
@@ -132,7 +179,7 @@ pub fn run(path: &str, argv: &[Vec<u8>], envp: &[Vec<u8>], stdin: &[u8], limit: 
     close_all(&[in_r, out_w, err_w]);
     if rc != 0 {
         close_all(&[in_w, out_r, err_r]);
-        return Err(LaunchError::Spawn(rc, if ids.is_some() { "fork+setgid+setuid+execve" } else { "posix_spawn" }));
+        return Err(LaunchError::Spawn(rc, if timens.is_some() { "fork+unshare(CLONE_NEWTIME)+execve" } else if ids.is_some() { "fork+setgid+setuid+execve" } else { "posix_spawn" }));
     }
 
     set_nonblock(in_w);
